@@ -330,9 +330,14 @@ class C09(Prop):
                 'DK.BridgeVec.SDevice_charge_at_lossless', 'DK.BridgeVec.SDevice_constraints_soc',
                 'DK.BridgeVec.TDevice_make_t_base', 'DK.BridgeVec.TDevice_t_base', 'DK.BridgeVec.TDevice_r2t']      # T1v: vector method bodies (vk/translate_vec.py, DK/Lemmas/BridgeVec.lean)
   bridge = bridge_vec
-  theorems = ['DK.C09.soc_zero', 'DK.C09.soc_succ', 'DK.C09.effPow_charge', 'DK.C09.effPow_discharge', 'DK.C09.flow_zero',
-              'DK.C09.chargeAt_zero', 'DK.C09.chargeAt_succ', 'DK.C09.socDot_eq_chargeAt',
-              'DK.C09.r2t_zero', 'DK.C09.r2t_succ', 'DK.C09.tBase_eq_r2t_zero_flow']
+  theorems = {'DK.Props.C09': ['DK.C09.soc_zero', 'DK.C09.soc_succ', 'DK.C09.effPow_charge', 'DK.C09.effPow_discharge', 'DK.C09.flow_zero',
+                               'DK.C09.chargeAt_zero', 'DK.C09.chargeAt_succ', 'DK.C09.socDot_eq_chargeAt',
+                               'DK.C09.r2t_zero', 'DK.C09.r2t_succ', 'DK.C09.tBase_eq_r2t_zero_flow'],
+              # the recurrence determines the reported state: uniqueness, causality, monotonicity, lossless closed form, affinity
+              'DK.Props.C09b': ['DK.C09.effFlow_sign', 'DK.C09.effFlow_mono', 'DK.C09.chargeAt_isStorageState', 'DK.C09.chargeAt_unique',
+                                'DK.C09.chargeAt_causal', 'DK.C09.chargeAt_mono', 'DK.C09.chargeAt_lossless', 'DK.C09.chargeAt_rest',
+                                'DK.C09.r2t_isThermalState', 'DK.C09.r2t_unique', 'DK.C09.r2t_causal', 'DK.C09.r2t_affine',
+                                'DK.C09.r2t_shift']}
   rule = ('utils.soc / base_soc on free vectors; SDevice (sustainment, efficiency in (0,1] incl. 1 and 1/64, start 0..1, optional '
           'cbounds and rate clipping) and TDevice (sustainment in [0,1], efficiency of both signs and both sides of 1, zero / negative '
           'external temperatures, two-way bounds) x n in 1.. x flows with mixed signs and exact zeros; non-trivial: mixed-sign flow and '
